@@ -35,6 +35,9 @@
 //! `parsefacts` → `Generated/ParseFacts.lean`: the decision tables and call
 //! skeletons of the parser; see `c06_parse.rs`.
 //!
+//! `fspanfacts` → `Generated/FSpanFacts.lean`: the constants of `unescape_f_string_part`'s scan (`piece_start`)
+//! and every arithmetic expression on byte positions in the three `unescape_*` functions (`c06_parse.rs`, section C).
+//!
 //! `tclistops` → `Generated/TcListOps.lean`: every operation of the type checker
 //! that is partial in the length of a list, with the evidence that the list is
 //! long enough; see `c06_tclists.rs`.
@@ -53,6 +56,7 @@ pub const TARGETS: &[Target] = &[
     ("unifyfacts", "UnifyFacts", unifyfacts as Gen),
     ("reportslices", "ReportSlices", reportslices as Gen),
     ("parsefacts", "ParseFacts", c06_parse::parsefacts as Gen),
+    ("fspanfacts", "FSpanFacts", c06_parse::fspanfacts as Gen),
     ("tclistops", "TcListOps", c06_tclists::tclistops as Gen),
 ];
 
